@@ -421,6 +421,23 @@ def regression_defs():
 def shape_defs(rng, builtins):
     g = Gen(rng, builtins)
     out = []
+    # rules whose right-hand sides are textually IDENTICAL: `=>` and `=?` rules with the same closure text (kinds `autoinf` / `autofal`), next
+    # to several rules without right-hand side: whatever the macro shares between rules with equal text, each rule keeps the wrapper of its
+    # own kind (`=>`: the value is the token; `=?`: `Err` is a lexer error) and its own place in the priority order (C10, C01)
+    for i, order in enumerate([['autoinf', 'autofal'], ['autofal', 'autoinf'], ['autoinf', 'autofal', 'autoinf', 'autofal'], ['autofal', 'autofal', 'autoinf']]):
+        a = [ord(ch) for ch in 'abcd']
+        rs = [rule('none', chr_(ord(' ')))]
+        for j, k in enumerate(order):
+            rs.append(rule(k, ('plus', chr_(a[j]))))
+        rs.insert(2, rule('none', chr_(ord('-'))))
+        rs.append(rule(order[0], cat(chr_(a[0]), chr_(a[1]))))          # tie with two earlier rules' prefixes: longest match, then first rule
+        rs.append(rule('none', cat(chr_(a[1]), chr_(ord('-')))))
+        rs.append(rule('simple', ANY))
+        if i % 2 == 0:
+            out.append({'name': 'ShKinds%d' % i, 'items': [('errortype',)] + rs})
+        else:
+            out.append({'name': 'ShKinds%d' % i, 'items': [('errortype',), ('ruleset', 'Init', rs[:4] + [rule('infallible', chr_(ord('[')))]),
+                                                          ('ruleset', 'R1', rs[4:] + [rule('infallible', chr_(ord(']')))])]})
     # cycles and joins reachable with and without an earlier accepting state (C01)
     for i in range(6):
         a, b, c = rng.sample(LETTERS, 3)
